@@ -1467,6 +1467,17 @@ def _enabled_of(tree, parts):
     return flag_truthy(lv) if lv["t"] in ("bool", "int", "dec", "str", "none") else None
 
 
+def load_corpus():
+    """minimised past failures (harness/corpus/C08/*.json), run first"""
+    from pathlib import Path
+    out = []
+    for f in sorted((Path(__file__).resolve().parent.parent / "corpus" / "C08").glob("*.json")):
+        c = json.loads(f.read_text())
+        c.pop("note", None)
+        out.append(c)
+    return out
+
+
 def new_violations(ctx: Ctx):
     fs = core.load_findings(ctx.prop)
     return [v for v in ctx.violations if not any(core.finding_matches(e, v) for e in fs)]
@@ -1493,7 +1504,8 @@ def run(ctx: Ctx):
     core.proof_leg(ctx, gen, PROP_FILE)
     stage("proof")
     load_names(ctx)
-    set_cases = exhaustive_valid_cases(ctx) + exhaustive_class_attr_cases(ctx) + gen_set_cases(ctx, ctx.budget(int(__import__("os").environ.get("C08_N", 540)), 4000))
+    corpus = load_corpus()
+    set_cases = [c for c in corpus if c["op"] == "set"] + exhaustive_valid_cases(ctx) + exhaustive_class_attr_cases(ctx) + gen_set_cases(ctx, ctx.budget(int(__import__("os").environ.get("C08_N", 540)), 4000))
     pairs, nm = leg_set(ctx, set_cases)
     stage(f"set ({len(set_cases)} cases)")
     dcases = exhaustive_derive_cases(ctx) + gen_derive_cases(ctx, ctx.budget(240, 1600))
@@ -1506,7 +1518,7 @@ def run(ctx: Ctx):
     texts = gen_eval_cases(ctx, ctx.budget(900, 6000))
     triples = leg_eval(ctx, texts)
     stage(f"eval ({len(texts)} texts)")
-    vcases = exhaustive_flag_cases(ctx) + gen_validate_cases(ctx, ctx.budget(210, 1500))
+    vcases = [c for c in corpus if c["op"] == "validate"] + exhaustive_flag_cases(ctx) + gen_validate_cases(ctx, ctx.budget(210, 1500))
     vpairs = leg_validate(ctx, vcases)
     stage(f"validate ({len(vcases)} cases, {sum(1 for c in vcases if c.get('run'))} run)")
 
